@@ -125,12 +125,16 @@ theorem C03_cache_history (limit : Key → Nat) (hist : List (Key × Loc)) (k : 
 theorem C03_order_restored (before localeOrder : Nat) (writes : Bool) (o : ParseOutcome)
     (ho : o = .ok ∨ o = .raised "ValueError" ∨ o = .raised "OverflowError") :
     tryParserOrderAfter before localeOrder writes o = before := by
-  have h1 : (Gen.exceptTryParser.headD []).any (fun n => classCaughtBy [n] "ValueError") = true := by decide
-  have h2 : (Gen.exceptTryParser.headD []).any (fun n => classCaughtBy [n] "OverflowError") = true := by decide
+  have h1 : ((Gen.exceptTryParser.headD []).any (fun n => classCaughtBy [n] "ValueError") && Gen.tryParserRestoresOnCatch) = true := by decide
+  have h2 : ((Gen.exceptTryParser.headD []).any (fun n => classCaughtBy [n] "OverflowError") && Gen.tryParserRestoresOnCatch) = true := by decide
+  have h3 : Gen.tryParserRestoresOnReturn = true := by decide
   rcases ho with rfl | rfl | rfl
-  · rfl
+  · unfold tryParserOrderAfter; simp only; rw [if_pos h3]
   · unfold tryParserOrderAfter; simp only; rw [if_pos h1]
   · unfold tryParserOrderAfter; simp only; rw [if_pos h2]
+
+/-- generated fact: `_try_parser` assigns the saved DATE_ORDER back on the normal path and in every handler -/
+theorem try_parser_restore_source : Gen.tryParserRestoresOnReturn = true ∧ Gen.tryParserRestoresOnCatch = true := by decide
 
 /-- non-vacuity: the history that raised KeyError before the repair (limit 1 for key 1; keys 1, 2, then key 1 with a new locale) -/
 example : run (fun k => if k = 1 then 1 else 1000) Cache.empty [(1, 10), (2, 10), (1, 20)] = [.val (1, 10), .val (2, 10), .val (1, 20)] :=
